@@ -35,6 +35,26 @@ var c01RoundTrip = probe.Define("C01", "roundtrip", func(t *rapid.T) protIn { re
 		if d := model.Diff(in.Msg, got); d != "" {
 			return probe.Fail("unprotect(protect(m)) != m: %s", d)
 		}
+		// the same datagram once more (a retransmission), in the other header mode, on the same receiver object
+		got, err = libUnprotect(w, saR, !in.SendI, !in.WithHdr)
+		if err != nil {
+			return probe.Fail("DecodeDecrypt of the same datagram a second time (other header mode) failed: %v", err)
+		}
+		if d := model.Diff(in.Msg, got); d != "" {
+			return probe.Fail("second unprotect of the same datagram != m: %s", d)
+		}
+		// one holder of the keys acting in both roles with a single SA object
+		w2, _, _, err := libProtect(in.Msg, saS, in.SendI, nil)
+		if err != nil {
+			return probe.Fail("second EncodeEncrypt on the same SA object: %v", err)
+		}
+		got, err = libUnprotect(w2, saS, !in.SendI, in.WithHdr)
+		if err != nil {
+			return probe.Fail("the SA object that protected the message cannot unprotect it in the opposite role: %v", err)
+		}
+		if d := model.Diff(in.Msg, got); d != "" {
+			return probe.Fail("unprotect(protect(m)) on one SA object != m: %s", d)
+		}
 		labels := append(suiteLabels(in), in.Msg.Labels()...)
 		if len(in.Entropy) > 0 {
 			labels = append(labels, "entropy:injected")
